@@ -78,23 +78,53 @@ var vC16MacroProgs = []string{
 	// the macro input parses but fails while running
 	"// #EnableDice coc true\nb2 / 0", "// #EnableDice fate true\nf + []", "// #EnableDice wod true\n2a5 + nosuchvar.x", "// #EnableDice doublecross true\n2c5 % 0",
 	"// #EnableDice coc false\n1 / 0", "// #EnableDice wod true\n[1][5]",
+	// the macro run rolls a die with omitted sides (the default-sides expression is compiled on demand)
+	"// #EnableDice fate true\nd", "// #EnableDice coc true\nd + 1", "// #EnableDice wod true\n2d", "// #EnableDice doublecross true\nd",
 }
 
-//vh:prop=C16 tiers=quick,thorough budget_s=600 bounds="17 programs with an #EnableDice macro in leading / middle / trailing position for each family (6 of them fail at run time after the macro took effect), initial flags symbolic: the macro changes only that evaluation; Config is field-for-field unchanged afterwards and a following macro-free run behaves as configured"
+// default-sides expressions for VH_C16_macro: unset, a number, and one gated dice family each
+var vC16DefaultSides = []string{"", "6", "f", "b2", "2a5", "2c5"}
+
+//vh:prop=C16 tiers=quick,thorough budget_s=900 sigkeys=prog,default-sides bounds="21 programs with an #EnableDice macro in leading / middle / trailing position for each family (6 of them fail at run time after the macro took effect, 4 roll a die with omitted sides), initial flags symbolic, DefaultDiceSideExpr in {unset, 6, f, b2, 2a5, 2c5}: the macro changes only that evaluation; Config is field-for-field unchanged afterwards and a following macro-free evaluation - parsed at top level, compiled on demand through RunExpr, or a bare d using the default-sides expression - behaves as on a VM with the same configuration that never saw a macro"
 func VH_C16_macro() {
 	k := vChoice("prog", len(vC16MacroProgs))
 	vm := NewVM()
 	wod, coc, fate, dc := vBool("EnableDiceWoD"), vBool("EnableDiceCoC"), vBool("EnableDiceFate"), vBool("EnableDiceDoubleCross")
 	vm.Config.EnableDiceWoD, vm.Config.EnableDiceCoC, vm.Config.EnableDiceFate, vm.Config.EnableDiceDoubleCross = wod, coc, fate, dc
 	vm.Config.DiceMinMode = true
+	dflt := vC16DefaultSides[vChoice("default-sides", len(vC16DefaultSides))]
+	vm.Config.DefaultDiceSideExpr = dflt
 	_ = vm.Run(vC16MacroProgs[k])
 	vReach("ran")
 	vAssert(vm.Config.EnableDiceWoD == wod, "macro-does-not-alter-VM-config")
 	vAssert(vm.Config.EnableDiceCoC == coc, "macro-does-not-alter-VM-config")
 	vAssert(vm.Config.EnableDiceFate == fate, "macro-does-not-alter-VM-config")
 	vAssert(vm.Config.EnableDiceDoubleCross == dc, "macro-does-not-alter-VM-config")
-	// a later evaluation without macro sees the configured flags only
 	follow := []string{"2a5", "b2", "f", "2c5"}
+	// a later evaluation without macro sees the configured flags only - first
+	// where the text is compiled on demand: as an expression in a sub-VM
+	// (RunExpr, directly after the macro run) and, below, as the default-sides
+	// expression of a bare 'd'.
+	// It must behave as on a VM with the same configuration that never saw a macro.
+	fresh := NewVM()
+	fresh.Config.EnableDiceWoD, fresh.Config.EnableDiceCoC, fresh.Config.EnableDiceFate, fresh.Config.EnableDiceDoubleCross = wod, coc, fate, dc
+	fresh.Config.DiceMinMode = true
+	fresh.Config.DefaultDiceSideExpr = dflt
+	show := func(v *VMValue, err error) string {
+		if err != nil {
+			return "error" // (Ret keeps the previous value then)
+		}
+		if v != nil {
+			return v.ToRepr()
+		}
+		return ""
+	}
+	for _, src := range follow {
+		v1, e1 := vm.RunExpr(src, false)
+		v2, e2 := fresh.RunExpr(src, false)
+		vAssert(show(v1, e1) == show(v2, e2), "on-demand-expression-after-a-macro-run-behaves-as-configured")
+	}
+	// ... and parsed at top level
 	flags := []bool{wod, coc, fate, dc}
 	for i, src := range follow {
 		if err := vm.Parse(src); err == nil {
@@ -102,6 +132,9 @@ func VH_C16_macro() {
 			_ = flags[i]
 		}
 	}
+	e1 := vm.Run("d + 2d")
+	e2 := fresh.Run("d + 2d")
+	vAssert(show(vm.Ret, e1) == show(fresh.Ret, e2), "default-sides-dice-after-a-macro-run-behave-as-configured")
 }
 
 // what precedes the tested value in an st command: the value is the first
